@@ -31,6 +31,17 @@ VG_ITERS=$(python3 -c "print(int(1500*$SCALE))")
 for k in 0 1 2 3; do
   ( valgrind --tool=memcheck --error-exitcode=9 --errors-for-leak-kinds=none --leak-check=no --num-callers=20 "$TD/release/vmiri" $SEED $((100000+k*VG_ITERS)) $VG_ITERS $EXTRA > "$LOGS/vg-vmiri-$k.log" 2>&1; echo "EXIT=$?" >> "$LOGS/vg-vmiri-$k.log" ) &
 done
+# full-stack scenarios over real loopback UDP (pinned C07 witnesses): the only unsafe block of the library
+# (UDPListener::messages: set_len before recv) and the socket paths run under memcheck; only valgrind's own
+# diagnostics count, the scenario verdicts (timing under a 30x slow-down) are ignored
+PROBES="5"; [ "$MODE" = quick ] || PROBES="1 3 5 7"
+for pr in $PROBES; do
+  ( VERIF_PROBE=$pr valgrind --tool=memcheck --error-exitcode=9 --errors-for-leak-kinds=none --leak-check=no --num-callers=20 "$TD/release/vcheck" C07probe > "$LOGS/vg-stack-$pr.log" 2>&1; rc=$?; [ $rc = 9 ] || rc=0; echo "EXIT=$rc" >> "$LOGS/vg-stack-$pr.log" ) &
+done
+# the security build (ring / openssl behind FFI) on a small C16 run, thorough only
+if [ "$MODE" != quick ] && ( cd "$HERE/harness" && CARGO_TARGET_DIR="$TD" cargo build --offline --release --features security --bin vcheck-sec ) > "$LOGS/native-build-sec.log" 2>&1; then
+  ( VERIF_SCALE=0.01 VERIF_THREADS=4 RUSTDDS_VERIF_DIR=/tmp/interp-sec-evidence-$$ valgrind --tool=memcheck --error-exitcode=9 --errors-for-leak-kinds=none --leak-check=no --num-callers=20 "$TD/release/vcheck-sec" C16 > "$LOGS/vg-sec-C16.log" 2>&1; rc=$?; [ $rc = 9 ] || rc=0; echo "EXIT=$rc" >> "$LOGS/vg-sec-C16.log"; rm -rf /tmp/interp-sec-evidence-$$ ) &
+fi
 SH_CASES=$(python3 -c "print(max(10,int(60*$SCALE)))")
 [ "$MODE" = quick ] || for k in 0 1 2 3; do
   ( VERIF_SEED=$SEED VERIF_DOMAIN=$((200+k)) valgrind --tool=memcheck --error-exitcode=9 --errors-for-leak-kinds=none --leak-check=no --num-callers=20 "$TD/release/vcheck" C06 --tier quick --shard-range $((500000+k*SH_CASES)) $((500000+(k+1)*SH_CASES)) --shard-out "$LOGS/vg-shard-$k.json" > "$LOGS/vg-shard-$k.log" 2>&1; echo "EXIT=$?" >> "$LOGS/vg-shard-$k.log" ) &
@@ -63,6 +74,8 @@ for f in sorted(glob.glob(logs+'/vg-*.log')):
     t=open(f,errors='replace').read(); res["valgrind"]["processes"]+=1
     ex=re.search(r'EXIT=(\d+)',t); m=re.search(r'^VMIRI .*$',t,re.M)
     if m: counters(m.group(0),res["valgrind"]["counters"])
+    if '/vg-stack-' in f and re.search(r'^completed=',t,re.M): res["valgrind"]["counters"]["real_udp_scenarios_run_to_the_end"]=res["valgrind"]["counters"].get("real_udp_scenarios_run_to_the_end",0)+1
+    if '/vg-sec-' in f and re.search(r'^C16 ',t,re.M): res["valgrind"]["counters"]["security_build_runs_to_the_end"]=res["valgrind"]["counters"].get("security_build_runs_to_the_end",0)+1
     verrs=re.findall(r'^==\d+== ((?:Invalid|Conditional jump|Use of uninit|Syscall param|Mismatched|Source and dest|Argument).*)$',t,re.M)
     if ex and ex.group(1)=='0' and not verrs:
         res["valgrind"]["processes_clean"]+=1
